@@ -47,6 +47,69 @@ def oracle(n, m, rel, res):
     return None
 
 
+# ---------------------------------------------------------------------------------------------------------------
+# LONG sequences (hundreds to a thousand items): the theorems hold for every length, the correspondence above runs on small
+# ones; these are judged by the oracle only (the answers are too long to ship to Coq): anything that caps the search
+# effort, recurses per matched pair or gives up "for performance" shows here.
+
+PREDS = {"eq": lambda x, y: x == y, "succ": lambda x, y: y == x + 1, "near": lambda x, y: abs(x - y) <= 1 and x % 7 != 3}
+
+
+def large_cases(rng, quick):
+    L_, C_, R_ = [("L", i) for i in range(300)], list(range(300)), [("R", i) for i in range(300)]
+    out = []
+    # a long common block behind / in front of long unrelated blocks: > 256 insertions and deletions around 300 matches
+    out.append(("eq", [hash(x) % 100000 + 10 ** 6 for x in L_] + C_, C_ + [hash(x) % 100000 + 2 * 10 ** 6 for x in R_]))
+    # a thousand matches between a first and a last difference
+    mid = list(range(1200))
+    out.append(("eq", [-1] + mid + [-2], [-3] + mid + [-4]))
+    out.append(("succ", list(range(0, 1100)), [5000] + list(range(1, 1101)) + [6000]))
+    # many scattered differences in long sequences
+    for _ in range(1 if quick else 4):
+        a = [rng.randrange(50) for _ in range(rng.randint(250, 400))]
+        b = list(a)
+        for _ in range(rng.randint(100, 180)):
+            k = rng.randrange(len(b))
+            if rng.random() < .5:
+                del b[k]
+            else:
+                b.insert(k, rng.randrange(50, 99))
+        out.append((rng.choice(["eq", "near"]), a, b))
+    return out
+
+
+def oracle_large(kind, a, b):
+    from xmldiff.utils import longest_common_subsequence as lcs
+    pred = PREDS[kind]
+    try:
+        res = lcs(list(a), list(b), pred)
+        res = None if res is None else [tuple(p) for p in res]
+    except Exception as ex:  # noqa
+        return "helper raised %s on sequences of %d and %d items" % (type(ex).__name__, len(a), len(b))
+    if res is None:
+        return "helper returned None"
+    n, m = len(a), len(b)
+    for (i, j) in res:
+        if not (0 <= i < n and 0 <= j < m) or not pred(a[i], b[j]):
+            return "pair %r out of range or not satisfying the predicate" % ((i, j),)
+    for p_, q in zip(res, res[1:]):
+        if not (p_[0] < q[0] and p_[1] < q[1]):
+            return "pairs %r, %r not strictly increasing" % (p_, q)
+    prev = [0] * (m + 1)
+    for i in range(1, n + 1):
+        cur = [0] * (m + 1)
+        ai = a[i - 1]
+        for j in range(1, m + 1):
+            v = prev[j] if prev[j] >= cur[j - 1] else cur[j - 1]
+            if pred(ai, b[j - 1]) and prev[j - 1] + 1 > v:
+                v = prev[j - 1] + 1
+            cur[j] = v
+        prev = cur
+    if len(res) != prev[m]:
+        return "length %d but a common subsequence of length %d exists (sequences of %d and %d items)" % (len(res), prev[m], n, m)
+    return None
+
+
 def gen_cases(run, rng):
     cases = []
     lim = 3 if run.tier == "quick" else 4
@@ -118,6 +181,13 @@ def main(run):
         if why:
             viols.append({"what": why, "replay": {"n": c[0], "m": c[1], "rel": c[2], "impl_result": r}})
     viols.sort(key=lambda v: v["replay"]["n"] * v["replay"]["m"])
+    nlarge = 0
+    for kind, a, b in large_cases(random.Random(run.seed + 2), run.tier == "quick"):
+        nlarge += 1
+        why = oracle_large(kind, a, b)
+        if why:
+            viols.append({"what": why, "replay": {"kind": "large", "pred": kind, "a": a, "b": b, "n": len(a), "m": len(b)}})
+    run.coverage["large_sequences_judged"] = nlarge
     bad, log = ([], "")
     if pinfo.get("build_ok"):
         bad, log = lib.run_cases("C12", PRE, [coq_case(*c, r) for c, r in zip(cases, results)], chunk=700)
@@ -161,6 +231,10 @@ def replay(run, path):
     d = json.load(open(path))
     if "n" not in d:
         print("replay names a broken tie, not an input:", d.get("broken")); return 1
+    if d.get("kind") == "large":
+        why = oracle_large(d["pred"], d["a"], d["b"])
+        print("->", why or "property holds on this input")
+        return 1 if why else 0
     res = impl_lcs(d["n"], d["m"], d["rel"])
     why = oracle(d["n"], d["m"], d["rel"], res)
     print("impl result:", res, "->", why or "property holds on this input")
